@@ -304,7 +304,7 @@ func prefixKeyForSigner(signer Address) []byte {
 }
 
 func prefixKeyForSignerAndHeight(signer Address, height int64) []byte {
-	return []byte(fmt.Sprintf("%s/%s/%s",
+	return []byte(fmt.Sprintf("%s/%s/%s/",
 		TxSignerKey,
 		signer,
 		elenEncoder.EncodeInt(int(height)),
@@ -329,7 +329,7 @@ func prefixKeyForRecipient(recipient Address) []byte {
 }
 
 func prefixKeyForRecipientAndHeight(recipient Address, height int64) []byte {
-	return []byte(fmt.Sprintf("%s/%s/%s",
+	return []byte(fmt.Sprintf("%s/%s/%s/",
 		TxRecipientKey,
 		recipient,
 		elenEncoder.EncodeInt(int(height)),
